@@ -1,4 +1,5 @@
 import NettyVerif.Proofs.Frame
+import NettyVerif.Proofs.VarLen
 /-! # C08 — Frame decoders never deliver a truncated, oversized or phantom frame
 
 Property theorems only, over the same executable codec model as C04 (Model/Frame.lean), for
@@ -75,8 +76,27 @@ example : stepRead true (.lf { big := true, max := 64, offset := 0, fieldLen := 
 /-- an over-long varint (10 continuation bytes) raises -/
 example : stepRead true (.varint 64) [List.replicate 11 128] .eof = .raise [[128]] := by decide
 
+/-! ## the variable-length decoder (no framing: one message per transport read of at most `max` bytes) -/
+
+/-- whatever the fragments of the stream are, every delivered message respects the configured
+    maximum; with `max > 0` and a transport that never returns empty reads no message is empty
+    (so the loop consumes input at every step), and what has been delivered is always a prefix of
+    the stream: nothing lost, duplicated, reordered or invented -/
+theorem C08_variable_length_bounded (max fuel : Nat) (cs : List VarLen.Bytes) :
+    (∀ m ∈ VarLen.run max fuel cs, m.length ≤ max) ∧
+    (∃ tail, (VarLen.run max fuel cs).flatten ++ tail = cs.flatten) :=
+  ⟨VarLen.run_bounded max fuel cs, VarLen.run_prefix max fuel cs⟩
+
+theorem C08_variable_length_progress (max : Nat) (hmax : 0 < max) (cs : List VarLen.Bytes) (hne : ∀ c ∈ cs, c ≠ [])
+    (m : VarLen.Bytes) (rest : List VarLen.Bytes) (h : VarLen.step max cs = .msg m rest) :
+    m ≠ [] ∧ (∀ c ∈ rest, c ≠ []) := VarLen.step_nonempty max hmax cs hne m rest h
+
+example : VarLen.run 3 10 [[1, 2, 3, 4, 5], [6]] = [[1, 2, 3], [4, 5], [6]] := by decide
+
 end NettyVerif.C08
 
+#print axioms NettyVerif.C08.C08_variable_length_bounded
+#print axioms NettyVerif.C08.C08_variable_length_progress
 #print axioms NettyVerif.C08.C08_delivered_frames_complete
 #print axioms NettyVerif.C08.C08_fixed_exact
 #print axioms NettyVerif.C08.C08_eof_raises
